@@ -180,6 +180,75 @@ Proof.
     rewrite ?akeys_map_snd, ?akeys_areset, ?akeys_apop, ?He, ?Hst, ?Hs; repeat split; auto.
 Qed.
 
+(* ---- configuration is never changed by training -------------------------------- *)
+Definition same_cfg (s s' : cf) : Prop :=
+  c_kind s' = c_kind s /\ c_hp s' = c_hp s /\ c_binz s' = c_binz s /\ c_ctxbin s' = c_ctxbin s /\ c_arms s' = c_arms s.
+
+Lemma same_cfg_refl s : same_cfg s s.
+Proof. unfold same_cfg; auto. Qed.
+Lemma same_cfg_trans s1 s2 s3 : same_cfg s1 s2 -> same_cfg s2 s3 -> same_cfg s1 s3.
+Proof. unfold same_cfg; intros (a&b&c&d&e) (f&g&h&i&j); repeat split; congruence. Qed.
+
+Lemma fit_arm_cfg s a ds rs : same_cfg s (cf_fit_arm N aeqb s a ds rs).
+Proof.
+  unfold cf_fit_arm, same_cfg.
+  destruct (c_kind s) eqn:Ek; simpl;
+    repeat match goal with |- context [if ?b then _ else _] => destruct b; simpl end; auto.
+Qed.
+
+Lemma parallel_fit_cfg s ds rs : same_cfg s (cf_parallel_fit N aeqb s ds rs).
+Proof.
+  unfold cf_parallel_fit. generalize (c_arms s) as l. intros l; revert s.
+  induction l as [|a t IH]; intros s; simpl; [apply same_cfg_refl|].
+  eapply same_cfg_trans; [apply fit_arm_cfg | apply IH].
+Qed.
+
+Lemma set_trained_cfg s ds p : same_cfg s (set_trained aeqb s ds p).
+Proof. unfold same_cfg, set_trained; simpl; auto. Qed.
+Lemma softmax_expectation_cfg s : same_cfg s (softmax_expectation N aeqb s).
+Proof. unfold same_cfg, softmax_expectation; simpl; auto. Qed.
+Lemma popularity_normalize_cfg s : same_cfg s (popularity_normalize N s).
+Proof. unfold same_cfg, popularity_normalize; destruct (eqb N _ _); simpl; auto. Qed.
+Lemma popularity_raw_means_cfg s : same_cfg s (popularity_raw_means N aeqb s).
+Proof. unfold same_cfg, popularity_raw_means; simpl; auto. Qed.
+Lemma reset_sums_cfg s : same_cfg s (reset_sums N s).
+Proof. unfold same_cfg, reset_sums; simpl; auto. Qed.
+Lemma reset_counts_ts_cfg s : same_cfg s (reset_counts_ts N s).
+Proof. unfold same_cfg, reset_counts_ts; simpl; auto. Qed.
+Lemma reset_status_cfg s : same_cfg s (reset_status s).
+Proof. unfold same_cfg, reset_status; simpl; auto. Qed.
+Lemma set_exp_cfg s e : same_cfg s (set_exp s e).
+Proof. unfold same_cfg; simpl; auto. Qed.
+Lemma set_total_cfg s e : same_cfg s (set_total s e).
+Proof. unfold same_cfg; simpl; auto. Qed.
+Lemma set_pyfloat_cfg s e : same_cfg s (set_pyfloat s e).
+Proof. unfold same_cfg; simpl; auto. Qed.
+
+Ltac cfg_step :=
+  match goal with
+  | |- same_cfg ?s ?s => apply same_cfg_refl
+  | |- same_cfg _ (set_trained _ _ _ _) => eapply same_cfg_trans; [|apply set_trained_cfg]
+  | |- same_cfg _ (softmax_expectation _ _ _) => eapply same_cfg_trans; [|apply softmax_expectation_cfg]
+  | |- same_cfg _ (popularity_normalize _ _) => eapply same_cfg_trans; [|apply popularity_normalize_cfg]
+  | |- same_cfg _ (popularity_raw_means _ _ _) => eapply same_cfg_trans; [|apply popularity_raw_means_cfg]
+  | |- same_cfg _ (reset_sums _ _) => eapply same_cfg_trans; [|apply reset_sums_cfg]
+  | |- same_cfg _ (reset_counts_ts _ _) => eapply same_cfg_trans; [|apply reset_counts_ts_cfg]
+  | |- same_cfg _ (reset_status _) => eapply same_cfg_trans; [|apply reset_status_cfg]
+  | |- same_cfg _ (set_exp _ _) => eapply same_cfg_trans; [|apply set_exp_cfg]
+  | |- same_cfg _ (set_total _ _) => eapply same_cfg_trans; [|apply set_total_cfg]
+  | |- same_cfg _ (set_pyfloat _ _) => eapply same_cfg_trans; [|apply set_pyfloat_cfg]
+  | |- same_cfg _ (cf_parallel_fit _ _ _ _ _) => eapply same_cfg_trans; [|apply parallel_fit_cfg]
+  end.
+
+Lemma cf_fit_cfg s ds rs : same_cfg s (cf_fit N aeqb s ds rs).
+Proof.
+  unfold cf_fit. destruct (c_kind s) eqn:Ek; repeat cfg_step.
+  (* Thompson: binarize does not touch the state *)
+Qed.
+
+Lemma cf_partial_fit_cfg s ds rs : same_cfg s (cf_partial_fit N aeqb s ds rs).
+Proof. unfold cf_partial_fit. destruct (c_kind s) eqn:Ek; repeat cfg_step. Qed.
+
 (* ---- outputs ----------------------------------------------------------------- *)
 (* the oracle answers with as many values as requested *)
 Definition shape_size (shape : list nat) : nat := fold_left Nat.mul shape 1%nat.
